@@ -22,6 +22,22 @@ TECHNIQUE = "Coq proof (induction over degree, Cox-de Boor recursion) on a Galli
 THEOREM_NOTES = "coq/Props/C01.v"
 
 
+def round_dec(x, d):
+    """x (Fraction) rounded to d decimals, ties to even: the value of float('{:.df}'.format(x))"""
+    y = x * 10 ** d
+    k = y.numerator // y.denominator
+    r = y - k
+    if r > F(1, 2) or (r == F(1, 2) and k % 2 == 1):
+        k += 1
+    return F(k, 10 ** d)
+
+
+def rounded_grid(kv, p, n, d):
+    """the n sampled parameters of an object created with precision=d: the exact grid values rounded to d decimals"""
+    lo, hi = F(kv[p]), F(kv[len(kv) - p - 1])
+    return [round_dec(lo + (hi - lo) * F(i, n - 1), d) for i in range(n)]
+
+
 def dims(rng):
     return rng.choice([2, 3, 3, 3, 4])
 
@@ -81,8 +97,12 @@ class CurveF(Family):
             c = {"p": p, "U": U, "P": gc.points(rng, size, dim), "rational": rat, "kind": kind,
                  "normalize": kind in ("uniform", "mult"), "us": params(rng, U, p, 4) + [U[p], U[size]],
                  "sample": rng.randint(2, 9), "sample2": rng.randint(2, 9)}
+            if c["normalize"] and rng.random() < 0.3:
+                c["precision"] = rng.choice([3, 4, 6])      # non-default number of decimals kept for sampled parameters / knots
+                c["sample"], c["sample2"] = rng.choice([4, 7, 8, 10]), rng.choice([3, 4, 7, 10, 13])
             if rat:
                 c["W"] = gc.weights(rng, size)
+                c["P2"], c["W2"] = gc.points(rng, size, dim), gc.weights(rng, size)
             out.append(c)
         return out
 
@@ -98,11 +118,17 @@ class CurveF(Family):
                 r["sample_size"] = o.sample_size
                 o.sample_size = c["sample2"]      # edit the density after a first evaluation, read the grid again
                 r["evalpts2"] = [list(x) for x in o.evalpts]
+            if c["rational"]:
+                # redefine the shape through the unweighted-points and weights views after it has been evaluated
+                o.ctrlpts = [list(p) for p in c["P"]]
+                o.ctrlpts = [list(p) for p in c["P2"]]
+                o.weights = list(c["W2"])
+                r["single2"] = [o.evaluate_single(u) for u in c["us"]]
             return r
         return call(f)
 
-    def _args(self, c, kv):
-        P = S.weighted(c["P"], c["W"]) if c["rational"] else c["P"]
+    def _args(self, c, kv, second=False):
+        P = (S.weighted(c["P2"], c["W2"]) if second else S.weighted(c["P"], c["W"])) if c["rational"] else c["P"]
         return "%s %s %s %s %s" % (G.b(c["rational"]), G.n(len(c["P"][0])), G.n(c["p"]), G.ql(kv), G.qll(P))
 
     def coq(self, c, out):
@@ -112,9 +138,15 @@ class CurveF(Family):
         a = self._args(c, o["kv"])
         e = "andb (closeLL (map (obj_curve_point Qops %s) %s) %s) (closeLL (map (obj_curve_point Qops %s) %s) %s)" % (
             a, G.ql(c["us"]), G.sll(o["single"]), a, G.ql(c["us"]), G.sll(o["d0"]))
-        if "evalpts" in o:
+        if "evalpts" in o and c.get("precision"):
+            for n_, key in ((c["sample"], "evalpts"), (c["sample2"], "evalpts2")):
+                prm = rounded_grid(o["kv"], c["p"], n_, c["precision"])
+                e = "andb (%s) (closeLL (map (obj_curve_point Qops %s) %s) %s)" % (e, a, G.ql(prm), G.sll(o[key]))
+        elif "evalpts" in o:
             e = "andb (%s) (closeLL (obj_curve_evalpts Qops %s %s %s) %s)" % (e, G.Q(TOL8), a, G.n(c["sample"]), G.sll(o["evalpts"]))
             e = "andb (%s) (closeLL (obj_curve_evalpts Qops %s %s %s) %s)" % (e, G.Q(TOL8), a, G.n(c["sample2"]), G.sll(o["evalpts2"]))
+        if "single2" in o:
+            e = "andb (%s) (closeLL (map (obj_curve_point Qops %s) %s) %s)" % (e, self._args(c, o["kv"], True), G.ql(c["us"]), G.sll(o["single2"]))
         return "(" + e + ")"
 
     def oracle(self, c, out):
@@ -139,8 +171,11 @@ class CurveF(Family):
                 return "curve-grid: sample_size=%d gives %d points (sample_size reads %s)" % (n, len(o["evalpts"]), o["sample_size"])
             p = c["p"]
             lo, hi = F(U[p]), F(U[len(U) - p - 1])
+            prm = rounded_grid(U, p, n, c["precision"]) if c.get("precision") else [lo + (hi - lo) * F(i, n - 1) for i in range(n)]
+            if prm[0] != lo or prm[-1] != hi:
+                prm[0], prm[-1] = lo, hi
             for i, pt in enumerate(o["evalpts"]):
-                u = lo + (hi - lo) * F(i, n - 1)
+                u = prm[i]
                 if not gc.closel(pt, S.curve_def(c, U, u)):
                     return "curve-grid: evalpts[%d] is not the point at parameter %s" % (i, u)
             if not gc.closel(o["evalpts"][0], S.curve_def(c, U, lo), 1e-12) or not gc.closel(o["evalpts"][-1], S.curve_def(c, U, hi), 1e-12):
@@ -148,9 +183,16 @@ class CurveF(Family):
             n2 = c["sample2"]
             if len(o["evalpts2"]) != n2:
                 return "curve-grid: after changing sample_size from %d to %d the grid has %d points" % (n, n2, len(o["evalpts2"]))
+            prm2 = rounded_grid(U, p, n2, c["precision"]) if c.get("precision") else [lo + (hi - lo) * F(i, n2 - 1) for i in range(n2)]
+            prm2[0], prm2[-1] = lo, hi
             for i, pt in enumerate(o["evalpts2"]):
-                if not gc.closel(pt, S.curve_def(c, U, lo + (hi - lo) * F(i, n2 - 1))):
+                if not gc.closel(pt, S.curve_def(c, U, prm2[i])):
                     return "curve-grid: after changing sample_size, evalpts[%d] is not the point at its grid parameter" % i
+        if "single2" in o:
+            c2 = dict(c, P=c["P2"], W=c["W2"])
+            for u, a in zip(c["us"], o["single2"]):
+                if not gc.closel(a, S.curve_def(c2, U, u)):
+                    return "curve-redefined: after setting ctrlpts and then weights on an evaluated NURBS curve the point at %r is not the definition's" % u
         return None
 
     def nontrivial(self, c, out):
@@ -185,6 +227,7 @@ class SurfaceF(Family):
                  "which": rng.choice(["u", "v", "uv", "vu"])}
             if rat:
                 c["W"] = gc.weights(rng, su * sv)
+                c["P2"], c["W2"] = gc.points(rng, su * sv, dim), gc.weights(rng, su * sv)
             out.append(c)
         return out
 
@@ -205,11 +248,16 @@ class SurfaceF(Family):
                     else:
                         o.sample_size_v = c["sample2"][1]
                 r["evalpts2"] = [list(x) for x in o.evalpts]
+            if c["rational"]:
+                o.ctrlpts = [list(p) for p in c["P"]]
+                o.ctrlpts = [list(p) for p in c["P2"]]
+                o.weights = list(c["W2"])
+                r["single2"] = [o.evaluate_single(tuple(uv)) for uv in c["uvs"]]
             return r
         return call(f)
 
-    def _args(self, c, o):
-        P = S.weighted(c["P"], c["W"]) if c["rational"] else c["P"]
+    def _args(self, c, o, second=False):
+        P = (S.weighted(c["P2"], c["W2"]) if second else S.weighted(c["P"], c["W"])) if c["rational"] else c["P"]
         return "%s %s %s %s %s %s %s %s %s" % (G.b(c["rational"]), G.n(len(c["P"][0])), G.n(c["pu"]), G.n(c["pv"]), G.ql(o["kvu"]), G.ql(o["kvv"]),
                                                G.n(c["su"]), G.n(c["sv"]), G.qll(P))
 
@@ -225,6 +273,8 @@ class SurfaceF(Family):
             e = "andb (%s) (closeLL (obj_surface_evalpts Qops %s %s %s %s) %s)" % (e, G.Q(TOL8), a, G.n(c["sample"][0]), G.n(c["sample"][1]), G.sll(o["evalpts"]))
             n2 = self._sizes2(c)
             e = "andb (%s) (closeLL (obj_surface_evalpts Qops %s %s %s %s) %s)" % (e, G.Q(TOL8), a, G.n(n2[0]), G.n(n2[1]), G.sll(o["evalpts2"]))
+        if "single2" in o:
+            e = "andb (%s) (closeLL (map (obj_surface_point Qops %s) %s) %s)" % (e, self._args(c, o, True), uvs, G.sll(o["single2"]))
         return "(" + e + ")"
 
     def _sizes2(self, c):
@@ -267,6 +317,11 @@ class SurfaceF(Family):
                     v = lv + (hv - lv) * F(j, nv - 1)
                     if not gc.closel(o["evalpts2"][j + nv * i], S.surface_def(c, Uu, Uv, u, v)):
                         return "surface-grid: after a density edit evalpts[%d] is not the point at its grid parameter" % (j + nv * i)
+        if "single2" in o:
+            c2 = dict(c, P=c["P2"], W=c["W2"])
+            for (u, v), a in zip(c["uvs"], o["single2"]):
+                if not gc.closel(a, S.surface_def(c2, Uu, Uv, u, v)):
+                    return "surface-redefined: after setting ctrlpts and then weights on an evaluated NURBS surface the point at (%r,%r) is not the definition's" % (u, v)
         return None
 
     def nontrivial(self, c, out):
